@@ -206,6 +206,13 @@ func pauseMinutes(ticks []int) int {
 func applyModel(in *ref.Doc, c MCmd, env MEnv) Outcome {
 	doc := in.Clone()
 	var o Outcome
+	for _, ls := range [][]string{c.Summary, c.Entry, c.RecSummary} {
+		for _, l := range ls {
+			if strings.ContainsAny(l, "\r\n\x00") {
+				return Outcome{Undecided: "control character in a summary / entry argument"}
+			}
+		}
+	}
 	date := targetDate(c, env)
 	if !date.Representable() {
 		return Outcome{Undecided: "target date outside the representable range"}
